@@ -1118,8 +1118,16 @@ class Evaluator:
         return mk("unop", _UNOPS[type(e.op)], v)
 
     def _e_BoolOp(self, e, st):
-        vals = [self._expr(x, st) for x in e.values]
-        return mk("and" if isinstance(e.op, ast.And) else "or", tuple(vals))
+        # operands after the first are evaluated only when the earlier ones did not decide the result: the events of a later
+        # operand (calls with effects, e.g. `stop = stop or cb(...)`) carry that short-circuit condition in their pc
+        is_and = isinstance(e.op, ast.And)
+        vals = []
+        cur = st
+        for i, x in enumerate(e.values):
+            vals.append(self._expr(x, cur))
+            if i + 1 < len(e.values) and any(isinstance(n, (ast.Call, ast.NamedExpr, ast.Await)) for n in ast.walk(e.values[i + 1])):
+                cur = cur.fork(vals[-1] if is_and else neg(vals[-1]))
+        return mk("and" if is_and else "or", tuple(vals))
 
     def _e_Compare(self, e, st):
         left = self._expr(e.left, st)
